@@ -773,6 +773,10 @@ class Norm:
         return self.name_term(node.id, scope)
 
     def n_Attribute(self, node: ast.Attribute, scope: Scope) -> Term:
+        if isinstance(node.value, ast.Name):
+            hv = scope.lookup("@%s.%s" % (node.value.id, node.attr))
+            if hv is not None:
+                return hv
         base = self.norm(node.value, scope)
         return self.mk_attr(base, node.attr, scope)
 
